@@ -267,7 +267,7 @@ fn items(args: &Args) -> Vec<Item> {
     let thorough = args.thorough();
     let timeout_ms = if thorough { 60_000 } else { 20_000 };
     let mut v = vec![];
-    for n in 3..=(if thorough { 5 } else { 4 }) {
+    for n in 3..=(if thorough { 6 } else { 5 }) {
         for extrapolate in [false, true] {
             for (t, trailing) in [vec![], vec![2]].into_iter().enumerate() {
                 for ci in 0..n - 1 {
@@ -277,13 +277,10 @@ fn items(args: &Args) -> Vec<Item> {
             }
         }
     }
-    for (nx, ny) in if thorough { vec![(3, 3), (3, 4), (4, 3)] } else { vec![(3, 3), (3, 4)] } {
+    for (nx, ny) in if thorough { vec![(3, 3), (3, 4), (4, 3), (3, 2), (4, 2), (4, 4), (2, 4)] } else { vec![(3, 3), (3, 4), (4, 3), (3, 2), (4, 2)] } {
         for extrapolate in [false, true] {
             for ci in 0..nx - 1 {
                 for cj in 0..ny - 1 {
-                    if !thorough && extrapolate && (ci + cj) % 2 == 1 {
-                        continue;
-                    }
                     let trailing = if (ci + cj) % 2 == 0 { vec![] } else { vec![2] };
                     let call = if trailing.is_empty() { Call::Scalar } else { Call::Interp };
                     v.push(Item { cfg: Cfg { kind: Kind::Bilinear, nx, ny, trailing, call, extrapolate, default_axes: false, dynamic: false, timeout_ms }, ci, cj });
@@ -301,7 +298,7 @@ pub fn run(args: &Args) -> Report {
     for f in crate::c01::FUNCTIONS.iter().chain(crate::c04::FUNCTIONS) {
         rep.functions.insert(f.to_string());
     }
-    rep.bounds.push(format!("Linear n = 3..{}, every bracket, 1 and 2 lanes, in range and extrapolated; Bilinear grids 3x3, 3x4{}, every cell; axis values, data and query all IEEE doubles (non-bracketing data unconstrained incl. NaN / inf; non-bracketing axis values independent subject to x_i < x_i+1 in both copies)", if args.thorough() { 5 } else { 4 }, if args.thorough() { ", 4x3" } else { "" }));
+    rep.bounds.push(format!("Linear n = 3..{}, every bracket, 1 and 2 lanes, in range and extrapolated; Bilinear grids 3x3, 3x4, 3x2{}, every cell; axis values, data and query all IEEE doubles (non-bracketing data unconstrained incl. NaN / inf; non-bracketing axis values independent subject to x_i < x_i+1 in both copies)", if args.thorough() { 6 } else { 5 }, if args.thorough() { ", 4x3, 4x2, 4x4, 2x4" } else { ", 4x3, 4x2" }));
     rep.outside.push("sizes above the bound".into());
     rep.assumptions.insert("mode O: comparisons bit-precise IEEE, arithmetic uninterpreted (equal operations on equal operands give equal results - congruence)".into());
     rep.assumptions.insert("C11 (engine K): the index guess of a non-NaN lookup argument on a valid axis casts to an in-range index".into());
